@@ -362,3 +362,52 @@ def level_violations(e, out=None) -> list:
             out.append(f"LNest(level={e.level}) has a body with level={e.body.level}, the dependent refinement demands {expected}")
         level_violations(e.body, out)
     return out
+
+
+# ----------------------------------------------------------------------------------------
+# the binding-context language again, with a TWO-LEVEL hierarchy: every direct production of the start symbol's body type is itself
+# abstract (atoms, binders), the context is handed down through `initial_values`, and the atoms' only context-dependent production
+# (a variable) is infeasible where the context is empty
+# ----------------------------------------------------------------------------------------
+class TExpr(ABC):
+    pass
+
+
+class TAtom(TExpr):
+    pass
+
+
+class TBinder(TExpr):
+    pass
+
+
+@dataclass
+class TVar(TAtom):
+    ctx: Annotated[list[str], AnyContext()]
+    name: Annotated[str, Dependent("ctx", lambda ctx: VarRange(ctx))]
+
+
+@dataclass
+class TLit(TAtom):
+    v: Annotated[int, IntRange(0, 3)]
+
+
+@dataclass
+class TLet(TBinder):
+    ctx: Annotated[list[str], AnyContext()]
+    name: Annotated[str, VarRange(list("abcd"))]
+    body: Annotated[TExpr, Dependent("ctx,name", lambda ctx, name: ContextMH(list(ctx) + [name]))]
+
+
+@dataclass
+class TProgram:
+    body: Annotated[TExpr, ContextMH([])]    # closed programs: the body starts in the empty context
+
+
+def two_level_context_grammar(only_var_atoms: bool = False):
+    """`only_var_atoms`: the atoms' single production is the variable, so the whole symbol TAtom fails in the empty context"""
+    from geneticengine.grammar.decorators import abstract
+    for c in (TExpr, TAtom, TBinder):
+        abstract(c)
+    nodes = [TAtom, TBinder, TVar, TLet, TProgram] + ([] if only_var_atoms else [TLit])
+    return extract_grammar(nodes, TProgram)
